@@ -2,6 +2,8 @@ package main
 
 import (
 	"fmt"
+	"go/scanner"
+	"go/token"
 	"os"
 	"path/filepath"
 	"strings"
@@ -114,25 +116,11 @@ func migrateFile(path string, dryRun bool) (int, error) {
 	}
 
 	original := string(content)
-	lines := strings.Split(original, "\n")
-	modified := false
-	count := 0
+	newContent, count := migrateContent(content)
 
-	for i, line := range lines {
-		trimmed := strings.TrimLeft(line, " \t")
-		if strings.HasPrefix(trimmed, oldMarkerPrefix) {
-			indent := line[:len(line)-len(trimmed)]
-			lines[i] = indent + newMarkerPrefix + strings.TrimPrefix(trimmed, oldMarkerPrefix)
-			modified = true
-			count++
-		}
-	}
-
-	if !modified {
+	if count == 0 {
 		return 0, nil
 	}
-
-	newContent := strings.Join(lines, "\n")
 
 	if dryRun {
 		printUnifiedDiff(path, original, newContent)
@@ -149,6 +137,62 @@ func migrateFile(path string, dryRun bool) (int, error) {
 	fmt.Printf("%s: migrated %d marker(s)\n", displayPath, count)
 
 	return count, nil
+}
+
+// migrateContent rewrites every legacy marker comment of a Go source file to the new
+// spelling and reports how many were rewritten. Only `//` comment tokens that are the
+// first thing on their line are touched: text that merely looks like a marker inside a
+// raw string literal or a block comment is part of another token and is left alone.
+func migrateContent(content []byte) (string, int) {
+	fset := token.NewFileSet()
+	file := fset.AddFile("", fset.Base(), len(content))
+
+	var s scanner.Scanner
+
+	// Scan errors are ignored on purpose: migration must not depend on the file compiling.
+	s.Init(file, content, func(token.Position, string) {}, scanner.ScanComments)
+
+	var out strings.Builder
+
+	last := 0
+	count := 0
+
+	for {
+		pos, tok, lit := s.Scan()
+		if tok == token.EOF {
+			break
+		}
+
+		if tok != token.COMMENT || !strings.HasPrefix(lit, oldMarkerPrefix) {
+			continue
+		}
+
+		offset := file.Offset(pos)
+		if !startsLine(content, offset) {
+			continue
+		}
+
+		out.Write(content[last:offset])
+		out.WriteString(newMarkerPrefix)
+
+		last = offset + len(oldMarkerPrefix)
+		count++
+	}
+
+	out.Write(content[last:])
+
+	return out.String(), count
+}
+
+// startsLine reports whether only blanks precede offset on its line.
+func startsLine(content []byte, offset int) bool {
+	for i := offset - 1; i >= 0 && content[i] != '\n'; i-- {
+		if content[i] != ' ' && content[i] != '\t' {
+			return false
+		}
+	}
+
+	return true
 }
 
 func printUnifiedDiff(path, oldContent, newContent string) {
